@@ -334,6 +334,17 @@ func phaseTargets(root, run string) {
 			errs["decl-directory"] = err.Error()
 		}
 	}
+	// the grammar declarations through the go/types parser (package target), XML only
+	if _, err := os.Stat(filepath.Join(root, "decl", "decl.go")); err == nil {
+		must(os.Chdir(root))
+		rel, rerr := filepath.Rel(root, filepath.Join(gopath, "src", "declpkgxml"))
+		if rerr != nil {
+			errs["decl-package-xml"] = rerr.Error()
+		} else if err := runCompiler(&inspector.Config{Target: inspector.TargetPackage, Package: "gen/decl", Destination: "declpkgxml", XML: rel}, true); err != nil {
+			errs["decl-package-xml"] = err.Error()
+		}
+		must(os.Chdir(base))
+	}
 	// black list and NoClean (C14): a marker file must survive NoClean, black-listed types get no file
 	bl := filepath.Join(base, "blacklist")
 	must(os.MkdirAll(bl, 0755))
